@@ -23,6 +23,15 @@ Oracles around every estimate / personalize / simulate call X made after history
   back bit for bit - float64 after a joint fit, 0-d noise_std - the exact tensors are assigned to the loaded object),
   the starting points handed to ``scipy.optimize.minimize`` (recorded through a wrapper) are the same, and an
   exception is only accepted when the history-free object raises the same exception class.
+
+Settings come in two variants: "default" (only the number of iterations) and "custom" = settings objects carrying
+nested containers the algorithms complete or read (annealing on with its length left unset, sampler parameters, custom
+solver options + use_jacobian=False for scipy_minimize); the snapshots are deep (nested containers included).
+
+Process isolation: module/class-level state of the library is part of "which calls were made earlier".  Every explored
+state lives in a process that executed exactly the state's history (fork of a template process that imported leaspy and
+never ran it), every checked transition runs in its own fork of that process, and every reference answer is computed in
+a fork of a pristine template in which nothing else was ever run; each shard is explored from a fresh interpreter.
 """
 
 from __future__ import annotations
@@ -61,12 +70,12 @@ ASSUMPTIONS = [
 ALGOS = ("scipy_minimize", "mode_posterior", "mean_posterior")
 
 QUICK_SPECS = ("logistic_d2_s1_diag", "joint_d2_s1_diag", "logistic_d2_s0_diag")
-# thorough: depth 4 on one model of each of the four kinds, depth 3 (thorough menu) on three more configurations
+# thorough: depth 4 on the logistic and the joint model, depth 3 (thorough menu) on five more configurations of all kinds
 THOROUGH_SPECS = (
     "logistic_d2_s1_diag", "joint_d2_s1_diag", "linear_d2_s1_diag", "shared_d2_s1_diag",
     "logistic_d2_s0_diag", "logistic_d2_s1_scalar", "joint_d1_s0_scalar",
 )
-THOROUGH_DEPTH = {n: (4 if i < 4 else 3) for i, n in enumerate(THOROUGH_SPECS)}
+THOROUGH_DEPTH = {n: (4 if i < 2 else 3) for i, n in enumerate(THOROUGH_SPECS)}
 
 
 def menu(spec, tier):
